@@ -433,6 +433,11 @@ func (g *Gen) externalWrites(fn *ssa.Function, ws *WriteSet) {
 		n, seq := encHeaps(g)
 		ws.Names[n] = true
 		ws.Names[seq] = true
+	case "encoding/xml.Marshal", "encoding/xml.MarshalIndent":
+		n, seq, out := marshalHeaps(g)
+		ws.Names[n] = true
+		ws.Names[seq] = true
+		ws.Names[out] = true
 	case "os.MkdirAll", "os.Create", "archive/zip.NewWriter", "(*archive/zip.Writer).Create", "(*archive/zip.Writer).Close", "(*os.File).Close":
 		fail, open, count, zdom, zdata, zentry := ioHeaps(g)
 		for _, h := range []string{fail, open, count, zdom, zdata, zentry} {
